@@ -31,7 +31,8 @@ TIERS = {
     "thorough": {"budget_s": 600, "chunk": 400, "selftest": 512, "minimise_s": 90},
 }
 PROBES = ["union_all_branches_fail", "nested_fault", "max_errors_cut", "excess_key", "dropped_required", "varargs_fault",
-          "alias_conflict", "all_of_type_fault", "ignore_constraints_run", "property_output_fault", "max_params_exceeded"]
+          "alias_conflict", "all_of_type_fault", "ignore_constraints_run", "property_output_fault", "max_params_exceeded",
+          "dependency_missing", "one_of_both_hold", "discriminated_field_not_a_mapping"]
 
 
 def generate(rng, tier):
@@ -47,8 +48,14 @@ def generate(rng, tier):
     plan["conflict"] = {}
     for i in range(rng.choice([1, 2, 3, 3, 4, 5])):
         r = rng.random()
+        if r < 0.06 and kind != "func":
+            # a field whose data class is chosen by a discriminator
+            f = {"name": "f%d" % i, "type": ["disc"], "required": rng.random() < 0.6, "alias_from": [], "disc": True}
+            fields.append(f)
+            inp[f["name"]] = rng.choice([{"kind": "a", "n": 1}, {"kind": "b", "m": "2"}, {"kind": "a"}, 5, "zzz", [1, 2], {"kind": "c"}])
+            continue
         if r < 0.5:
-            t = tdsl.gen_scalar(rng, rule_leaves=RL, all_of=RL)
+            t = tdsl.gen_scalar(rng, rule_leaves=RL, all_of=RL, one_of=RL)
         elif r < 0.9:
             t = tdsl.gen_container(rng, 1, rule_leaves=RL, all_of=RL)
         else:
@@ -61,6 +68,13 @@ def generate(rng, tier):
             if f["alias_from"] and rng.random() < 0.5:
                 # structural fault: the same field once more under its other spelling, with another value
                 plan["conflict"][f["name"]] = tdsl.gen_value(rng, t, pool, positions, (f["name"] + "'",))
+    # dependencies: some fields demand that an optional plain field is given as well
+    opt_names = [f["name"] for f in fields if not f["required"] and not f.get("disc")]
+    for f in fields:
+        if opt_names and rng.random() < 0.2:
+            d = rng.choice(opt_names)
+            if d != f["name"]:
+                f["deps"] = [d]
     plan["fields"] = fields
     plan["addition"] = rng.choice([None, False, False, "leaf"])
     plan["drop"] = []
@@ -123,8 +137,12 @@ def build(plan, collect, faulted=True):
             okw["addition"] = faults.Leaf if add == "leaf" else add
         ns = {"__annotations__": {}, "__module__": "verif_c10", "__qualname__": "M"}
         for f in plan["fields"]:
-            ns["__annotations__"][f["name"]] = tdsl.build_type(f["type"])
+            ns["__annotations__"][f["name"]] = _build_type(f["type"])
             fkw = {}
+            if f.get("disc"):
+                fkw["discriminator"] = "kind"
+            if f.get("deps"):
+                fkw["dependencies"] = list(f["deps"])
             if not f["required"]:
                 fkw["required"] = False
             if f.get("alias_from"):
@@ -152,8 +170,14 @@ def build(plan, collect, faulted=True):
     params = []
     env = {"Leaf": faults.Leaf, "__name__": "verif_c10"}
     for f in order:
-        env["T_" + f["name"]] = tdsl.build_type(f["type"])
-        if f.get("alias_from"):
+        env["T_" + f["name"]] = _build_type(f["type"])
+        if f.get("deps"):
+            pk = {"dependencies": list(f["deps"])}
+            if f.get("alias_from"):
+                pk["alias_from"] = list(f["alias_from"])
+            env["P_" + f["name"]] = utype.Param(**pk) if f["required"] else utype.Param(None, **pk)
+            params.append(f"{f['name']}: T_{f['name']} = P_{f['name']}")
+        elif f.get("alias_from"):
             env["P_" + f["name"]] = utype.Param(alias_from=list(f["alias_from"])) if f["required"] else utype.Param(None, alias_from=list(f["alias_from"]))
             params.append(f"{f['name']}: T_{f['name']} = P_{f['name']}")
         else:
@@ -175,20 +199,41 @@ def build(plan, collect, faulted=True):
     return call
 
 
+_DISC = {}
+
+
+def _build_type(t):
+    if t[0] != "disc":
+        return tdsl.build_type(t)
+    if not _DISC:
+        import typing
+        from utype import Schema
+        try:
+            from typing import Literal
+        except ImportError:  # pragma: no cover
+            from typing_extensions import Literal
+        A = type("DA", (Schema,), {"__annotations__": {"kind": Literal["a"], "n": int}, "kind": "a", "n": 0, "__module__": "verif_c10", "__qualname__": "DA"})
+        B = type("DB", (Schema,), {"__annotations__": {"kind": Literal["b"], "m": int}, "kind": "b", "m": 0, "__module__": "verif_c10", "__qualname__": "DB"})
+        _DISC["t"] = typing.Union[A, B]
+    return _DISC["t"]
+
+
 def func_order(plan):
     # python's rule: parameters written with "= something" come last; an aliased required parameter is written "= Param(...)"
-    req_plain = [f for f in plan["fields"] if f["required"] and not f.get("alias_from")]
-    req_alias = [f for f in plan["fields"] if f["required"] and f.get("alias_from")]
+    req_plain = [f for f in plan["fields"] if f["required"] and not f.get("alias_from") and not f.get("deps")]
+    req_alias = [f for f in plan["fields"] if f["required"] and (f.get("alias_from") or f.get("deps"))]
     return req_plain + req_alias + [f for f in plan["fields"] if not f["required"]]
 
 
 _XOPTS = {}
+OPTIONAL = set()     # report entries that may or may not appear (see ground_truth)
 
 
 def _item_fails(t, v):
     import utype
     try:
-        utype.type_transform(v, tdsl.rule_type(t), options=utype.Options(**_XOPTS))
+        T = utype.Rule.parse_annotation(annotation=_build_type(t)) if t[0] == "disc" else tdsl.rule_type(t)
+        utype.type_transform(v, T, options=utype.Options(**_XOPTS))
         return False
     except Exception:  # noqa
         return True
@@ -228,6 +273,30 @@ def ground_truth(plan, stats):
         if _item_fails(["leaf"], tdsl.build_value(a)):
             G.add("*%d" % i)
             stats["probe:varargs_fault"] += 1
+    # a field that is given and fine demands its dependencies (an invalid one is reported itself and demands nothing)
+    OPTIONAL.clear()
+    conflicted = {n for n in (plan.get("conflict") or {}) if n in G}
+    for f in plan["fields"]:
+        if not (f.get("deps") and f["name"] in value):
+            continue
+        own_value_fails = _item_fails(f["type"], value[f["name"]])
+        if own_value_fails:
+            continue        # reported itself, demands nothing
+        lacking = any(d not in value or d in G for d in f["deps"])
+        if f["name"] in conflicted:
+            # two spellings that disagree: reported as a conflict; the parser goes on with the first value, so the
+            # dependant may or may not complain as well
+            if lacking:
+                OPTIONAL.add("<deps>")
+            continue
+        if f["name"] not in G:
+            if any(d not in value for d in f["deps"]):
+                G.add("<deps>")
+                stats["probe:dependency_missing"] += 1
+            elif any(d in G for d in f["deps"]):
+                # the dependency is given but invalid: it is reported itself; whether the dependant also complains is not
+                # fixed by the statement (either is fine)
+                OPTIONAL.add("<deps>")
     # a property is computed from the parsed fields, so it can only fail (and be reported) when every input item is fine
     if not G and plan.get("pprop") and _item_fails(plan["pprop"]["type"], tdsl.build_value(plan["pprop"]["value"])):
         G.add("pr")
@@ -275,12 +344,16 @@ def _run(plan, collect):
             it = _norm_item(plan, getattr(err, "item", None))
             if type(err).__name__ in ("ParamsExceedError", "ParamsLackError"):
                 it = "<max_params>"
+            if type(err).__name__ == "DependenciesAbsenceError":
+                it = "<deps>"
             items.append(it)
             kinds.append([type(err).__name__, str(items[-1])])
         return ("collected", items, len(e.errors), kinds)
     except ParseError as e:
         if type(e).__name__ in ("ParamsExceedError", "ParamsLackError"):
             return ("ParseError", "<max_params>")
+        if type(e).__name__ == "DependenciesAbsenceError":
+            return ("ParseError", "<deps>")
         return ("ParseError", _norm_item(plan, getattr(e, "item", None)))
     except Exception as e:  # noqa
         return ("raw", type(e).__name__, kernel.clean_text(e, 120))
@@ -302,12 +375,27 @@ def execute(plan):
         if f["required"] and f["name"] not in ctl["input"]:
             # restore dropped keys with fresh payloads
             import random
-            ctl["input"][f["name"]] = tdsl.gen_value(random.Random(1), f["type"], pool, [], ())
+            ctl["input"][f["name"]] = {"kind": "a", "n": 1} if f.get("disc") else tdsl.gen_value(random.Random(1), f["type"], pool, [], ())
     ctl["drop"] = []
     ctl["conflict"] = {}
     ctl.pop("max_params", None)
+    faults.reset()
+    _XOPTS.clear()
+    if plan.get("ignore_constraints"):
+        _XOPTS["ignore_constraints"] = True
+    G0 = ground_truth(ctl, __import__("collections").Counter())
     c1, c2 = _run(ctl, False), _run(ctl, True)
-    if c1[0] != "ok" or c2 != c1:
+    if G0:
+        # even without faults some items fail by construction (both conditions of a '^' hold, a value that is no mapping
+        # for a discriminated class, a dependency left out): both modes must reject
+        if c1[0] == "ok" or c2[0] == "ok":
+            res.violate(f"C10|{plan['kind']}|1:control_accepts_failing_input|-|-", f"no injected fault, failing items {sorted(G0)}: fail-fast {c1[0]}, collecting {c2[0]}")
+            return res
+    elif (c1[0] == "ok") != (c2[0] == "ok") or (c1[0] == "ok" and c1 != c2):
+        # no fault injected, nothing fails on its own, and the two modes still disagree: clause 1/2 outright
+        res.violate(f"C10|{plan['kind']}|1:modes_disagree_without_faults|-|-", f"no injected fault: fail-fast {c1} but collecting {c2}")
+        return res
+    elif c1[0] != "ok":
         raise kernel.HarnessError(f"C10 control: fail-fast {c1} collecting {c2} plan={kernel.jdump(ctl)}")
     res.ev("control", "ok")
 
@@ -358,6 +446,7 @@ def execute(plan):
                 if cls_name == "ExceedError" and item not in plan["excess"]:
                     res.violate(f"C10|{plan['kind']}|3:field_reported_exceeding|{path_kind}|{me}",
                                 f"ExceedError for {item!r}, which is a declared field; reported {co[3]}")
+            names = names - (OPTIONAL - G)
             if not names <= G:
                 res.violate(f"C10|{plan['kind']}|3:valid_item_reported|{path_kind}|{me}",
                             f"reported {sorted(map(str, names))} but failing items are {sorted(G)}")
